@@ -100,7 +100,7 @@ def _probe():
     """concrete observations of the real constructors / accessors (what the clauses above say, on a few values)"""
     from curtsies.formatstring import Chunk, FmtStr, FrozenAttributes
     out = []
-    for text in ("", "ab", " x\n", "\uff25\u0301", "caf\udce9", "\ufeffab", "x\ud83d\ude00y", "\ud800", "\x00z", "ab\ufeff", "\x1b[1m"):
+    for text in ("", "ab", " x\n", "\uff25\u0301", "caf\udce9", "\ufeffab", "x\ud83d\ude00y", "\ud800", "\x00z", "ab\ufeff", "\x1b[1m", "c\td", "\tq", "v\x0bw\x0c\r"):
         for at in (None, {}, {"fg": 31}, {"bold": False, "bg": 44}):
             c = Chunk(text, at) if at is not None else Chunk(text)
             want = dict(at or {})
